@@ -198,7 +198,7 @@ def distribution(cases, obs):
     return d
 
 
-TAGS = [None, 't1', 't2']
+TAGS = [None, 't1', 't2', '']          # the empty string is a legal tag, distinct from no tag
 
 
 def rand_hist(rng, pids, n):
@@ -234,7 +234,7 @@ def generate(tier, rng, around=None):
     pids = ['A', 'AB']
     # systematic short histories: every op after a fixed prefix of saves
     prefix = [['save', 'A', None], ['progress', 'A'], ['save', 'A', 't1'], ['save', 'AB', 't1'], ['progress', 'A'], ['progress', 'AB']]
-    singles = [['save', 'A', None], ['save', 'A', 't1'], ['save', 'AB', 't2'], ['load', 'A', None], ['load', 'A', 't1'], ['load', 'AB', None],
+    singles = [['save', 'A', None], ['save', 'A', 't1'], ['save', 'AB', 't2'], ['save', 'A', ''], ['load', 'A', ''], ['delete', 'A', ''], ['load', 'A', None], ['load', 'A', 't1'], ['load', 'AB', None],
                ['load', 'AB', 't1'], ['mutate_loaded', 'A', None], ['mutate_loaded', 'A', 't1'], ['list'], ['list_pid', 'A'], ['list_pid', 'AB'],
                ['list_pid', 'ABC'], ['delete', 'A', None], ['delete', 'A', 't2'], ['delete', 'AB', 't1'], ['delete_pid', 'A'], ['delete_pid', 'ABC'],
                ['progress', 'A']]
@@ -243,7 +243,7 @@ def generate(tier, rng, around=None):
             tail = [['load', 'A', None], ['load', 'A', 't1'], ['load', 'AB', 't1'], ['list']]
             cases.append({'pids': pids, 'hist': prefix + [a, b] + tail})
         if tier == 'thorough':
-            for a, b, c in itertools.product(singles[3:], repeat=3):
+            for a, b, c in itertools.product(singles[6:], repeat=3):
                 if rng.random() < 0.25:
                     cases.append({'pids': pids, 'hist': prefix + [a, b, c, ['load', 'A', None], ['load', 'AB', 't1'], ['list']]})
     n_rand = {'quick': 250, 'thorough': 2500, 'widen': 1500}[tier]
